@@ -441,6 +441,12 @@ CORPUS = [
     {'tree': {'a.txt': '41', 'b': ''}, 'ops': [['del', 'a.txt', ''], ['add', 'a.txt', '41']]},
     # append through a single new file, then remove through the folder
     {'tree': {'b': '42'}, 'ops': [['add', 'a.txt', '41'], ['a', 'a.txt', ''], ['a', 'a.txt', ''], ['del', 'b', ''], ['r', '', '']]},
+    # EVERY recorded file deleted before the remove pass (archive content replaced / last file deleted): all rows go
+    {'tree': {'x.txt': '41', 'y/z.bin': '4242'}, 'ops': [['del', 'x.txt', ''], ['del', 'y/z.bin', ''], ['r', '', '']]},
+    {'tree': {'x.txt': '41', 'y/z.bin': '4242'}, 'ops': [['del', 'x.txt', ''], ['del', 'y/z.bin', ''], ['add', 'new/a', '43'], ['add', 'b', '44'], ['ar', '', '']]},
+    {'tree': {'only': '41'}, 'ops': [['del', 'only', ''], ['ar', '', '']]},
+    # a new file whose path differs from a recorded one by letter case only is a new file (case-sensitive file system)
+    {'tree': {'Readme.txt': '41', 'docs/Notes.md': '42'}, 'ops': [['add', 'README.TXT', '43'], ['add', 'DOCS/notes.md', '44'], ['a', '', ''], ['add', 'readme.txt', '45'], ['a', 'readme.txt', '']]},
     # missing single-file input
     {'tree': {'b': '42'}, 'ops': [['ar', 'a.txt', ''], ['a', 'zz', '']]},
     # empty tree, nested files, walk order (files before sub-directories)
